@@ -201,7 +201,8 @@ func init() {
 	}
 	add("C08", "C08.reasons", "Seal and Open of an HPKE context refuse only when the sequence number would overflow or the AEAD refuses (an added length test desynchronises the two sides: the sealer has already advanced)",
 		reasonSpec{pkg: "hpke", typ: "openContext", name: "Open", why: "RFC 9180 5.2 ContextR.Open: the AEAD's verdict, the sequence-number overflow", callees: []string{"(hpke.encdecContext).increment", "invoke (crypto/cipher.AEAD).Open"}},
-		reasonSpec{pkg: "hpke", typ: "sealContext", name: "Seal", why: "RFC 9180 5.2 ContextS.Seal: the sequence-number overflow", callees: []string{"(hpke.encdecContext).increment"}})
+		reasonSpec{pkg: "hpke", typ: "sealContext", name: "Seal", why: "RFC 9180 5.2 ContextS.Seal: the sequence-number overflow", callees: []string{"(hpke.encdecContext).increment"}},
+		reasonSpec{pkg: "hpke", typ: "encdecContext", name: "marshal", why: "every context serialises: only the byte builder can fail (a field longer than 255 octets)", noneOK: true})
 	tk := "abe/cpabe/tkn20/internal/tkn"
 	add("C20", "C20.couldreasons", "the could-decrypt predicate answers false only for a malformed ciphertext or when the satisfaction predicate fails (any further test makes it disagree with decryption)",
 		reasonSpec{pkg: tk, name: "CouldDecrypt", why: "framing of the ciphertext, then Policy.Satisfaction", callees: []string{"(" + tk + ".ciphertextHeader).unmarshalBinary", tk + ".removeLenPrefixed", "(" + tk + ".Policy).Satisfaction"}, conds: []string{`\(call:\?#2!=nil\)`}})
